@@ -164,3 +164,31 @@ CONTRACTS['DLISFile.write'] = dict(
         'DLISWriter.write_storage_unit_label': [('the-label-written-is-the-files-label', 'sul is self._sul')]},
     ensures=[('file-is-label-then-visible-records-prior-content-replaced',
               'disk == sul_bytes(str(self._sul.sequence_number), str(self._sul.max_record_length), self._sul.set_identifier) + stream')])
+
+# ---------------------------------------------------------------------------------------------- origins (C07, C09)
+ORG = {'cls': 'OriginItem', 'fields': {'name': 'str', '_origin_reference': 'int'}}
+CONTRACTS['LogicalFile.next_available_origin_ref'] = dict(
+    props=['C07', 'C09'], self_fields={}, params={'origin_reference': 'int?', 'origins': {'list': [ORG, ORG]}}, returns='int',
+    raises={'RuntimeError': 'origin_reference is not None and origin_reference != 0 and (origin_reference == origins[0]._origin_reference or origin_reference == origins[1]._origin_reference)'},
+    loops=[dict(inv=['next_available_origin_ref == at_entry(next_available_origin_ref) or at_entry(next_available_origin_ref) == origins[0]._origin_reference '
+                     'or at_entry(next_available_origin_ref) == origins[1]._origin_reference', 'next_available_origin_ref >= at_entry(next_available_origin_ref)'])],
+    # termination not proved (no variant)
+    ensures=[('a-new-origin-reference-is-not-used-by-another-origin-of-the-logical-file',
+              'result != origins[0]._origin_reference and result != origins[1]._origin_reference'),
+             ('explicit-reference-kept', 'implies(origin_reference is not None and origin_reference != 0, result == origin_reference)')])
+FHI = {'cls': 'FileHeaderItem', 'fields': {'header_id': 'str'}}
+DO = {'cls': 'OriginItem', 'fields': {'name': 'str', 'file_id': {'cls': 'Attribute', 'fields': {'_value': 'oneof[none,str]'}}}}
+CONTRACTS['LogicalFile._check_defining_origin_params'] = dict(
+    props=['C09', 'C12'],
+    # the property `defining_origin` (first origin of the logical file's origin sets) abstracted by its value
+    self_fields={'defining_origin': 'oneof[none,obj:DefOriginT]', 'file_header_item': FHI}, params={}, returns='none',
+    stubs={'value.setter': dict(returns='none')},
+    raises={'RuntimeError': 'self.defining_origin is None',
+            'ValueError': 'self.defining_origin is not None and self.defining_origin.file_id._value is not None and self.defining_origin.file_id._value != self.file_header_item.header_id'},
+    ensures=[])
+MODELS['DefOriginT'] = DO
+CONTRACTS['LogicalFile._check_completeness'] = dict(
+    props=['C09', 'C12'],
+    self_fields={'defining_origin': 'oneof[none,obj:DefOriginT]', 'file_header_item': FHI, 'channels': 'oneof[list[int]*0,list[int]*1]',
+                 'frames': 'oneof[list[int]*0,list[int]*1]'}, params={}, returns='none',
+    raises={'RuntimeError': 'self.defining_origin is None or len(self.channels) == 0 or len(self.frames) == 0'}, ensures=[])
